@@ -3,6 +3,7 @@
 #include <osmium/io/detail/read_thread.hpp>
 #include <osmium/io/detail/input_format.hpp>
 #include <osmium/io/detail/queue_util.hpp>
+#include <osmium/io/detail/write_thread.hpp>
 #include <osmium/io/compression.hpp>
 #include <new>
 #include <cstring>
@@ -80,5 +81,45 @@ ENTRY unsigned verif_parser_parse(int set_header_first, int throw_in_run, int bu
     MockParser* p = new (storage.mem) MockParser{args};      // never destroyed: the destructor would shut the (dummy) input queue down
     p->set_header_first = set_header_first; p->throw_in_run = throw_in_run; p->buffers = buffers;
     p->parse();
+    return g_n;
+}
+
+// ---------------------------------------------------------------- C08: the write stage (WriteThread::operator()) in this thread
+// the input queue's pop() is a script: call j returns data, or "" (end of data) if j >= end_at, or throws if j == pop_throw_at (an encoder failure
+// relayed through the queue); the compressor is a mock whose write number write_throw_at / whose close() may throw.
+// recorded events: p pop, w write, c close, V promise value set, x promise exception set; tail: notification flag, queue shut down
+static unsigned g_wpops, g_pop_throw_at, g_wend_at;
+extern "C" {
+__attribute__((noinline)) void verif_model_pop_string(std::string* ret, void*) {
+    const unsigned j = g_wpops++;
+    rec('p');
+    if (j == g_pop_throw_at) throw std::runtime_error{"encoder failed"};
+    new (ret) std::string{j >= g_wend_at ? "" : "data"};
+}
+__attribute__((noinline)) void verif_rec_size_value(void*, const void*) { rec('V'); }
+__attribute__((noinline)) void verif_rec_size_exception(void*, void*) { rec('x'); }
+}
+struct MockCompressor final : osmium::io::Compressor {
+    unsigned writes = 0, throw_at; bool close_throws;
+    MockCompressor(unsigned t, bool c) : osmium::io::Compressor(osmium::io::fsync::no), throw_at(t), close_throws(c) {}
+    void write(const std::string& data) override { const unsigned j = writes++; rec(data.size() == 4 ? 'w' : '?'); if (j == throw_at) throw std::runtime_error{"write failed"}; }
+    void close() override { rec('c'); if (close_throws) throw std::runtime_error{"close failed"}; }
+    std::size_t file_size() const override { return 4UL * writes; }
+};
+ENTRY unsigned verif_write_thread(unsigned pop_throw_at, unsigned end_at, unsigned write_throw_at, int close_throws, unsigned char* out, unsigned cap, int* tail) {
+    g_rec = out; g_n = 0; g_cap = cap; g_wpops = 0; g_pop_throw_at = pop_throw_at; g_wend_at = end_at;
+    future_string_queue_type queue{4, "out"};
+    std::atomic_bool notification{false};
+    {
+        // partially constructed stage: the promise is never touched (set_value / set_exception are recorders), everything else is real
+        struct Raw { alignas(WriteThread) unsigned char mem[sizeof(WriteThread)]; } raw; std::memset(raw.mem, 0, sizeof(raw.mem));
+        auto* wt = reinterpret_cast<WriteThread*>(raw.mem);
+        new (&wt->m_queue) queue_wrapper<std::string>{queue};
+        new (&wt->m_compressor) std::unique_ptr<osmium::io::Compressor>{new MockCompressor{write_throw_at, close_throws != 0}};
+        wt->m_notification = &notification;
+        (*wt)();
+        wt->m_compressor.reset();
+    }
+    tail[0] = notification ? 1 : 0; tail[1] = queue.in_use() ? 0 : 1;
     return g_n;
 }
